@@ -34,6 +34,7 @@ def phases(tier):
     q = tier == "quick"
     return [
         {"name": "t2", "runs": 900 if q else 60000, "params": {"type": "t2", "big": not q}},
+        {"name": "t1", "runs": 600 if q else 40000, "params": {"type": "t1", "big": not q}},
     ]
 
 
@@ -125,7 +126,7 @@ def run_one(sim, params):
                                 "fresh reader raised %r after cut k=%d/%d" % (e, k, n), {"cut": k})
             mem = bytes(w.silicon.mem)
         phase = sum(1 for b in boundaries if b < k) if 0 < k else -1
-        sim.cls(params["type"], case.layout.ndef_offset % 4 if hasattr(case, "layout") else 0,
+        sim.cls(params["type"], case.layout.ndef_offset % 8 if hasattr(case, "layout") else 0,
                 case.old_class, nc, fmt, phase if k < n else 99, seen)
         sim.log("cut", k, n, outcome, seen)
         if seen == "MIXTURE":
